@@ -36,7 +36,7 @@ package main
 //@   props C19
 //@   requires txn == 0 && nonNilPtr(rm) && len(cfg.colTypes) >= len(cfg.srcCols)
 //@   requires forall i int :: 0 <= i && i < len(cfg.srcCols) ==> 0 <= cfg.srcCols[i]
-//@   modifies txn, storeState, walFlushes, entryCount, seq, rowsApplied, allelems(string), all(sql.InsertColumnsAndSource.QueryExpression)
+//@   modifies txn, storeState, ioFailed, walFlushes, entryCount, seq, rowsApplied, allelems(string), all(sql.InsertColumnsAndSource.QueryExpression)
 //@   loop 1 invariant [max; C19] forall k int :: 0 <= k && k <= rangeindex ==> cfg.srcCols[k] <= maxCsvIdx
 
 //@ func newErrMalformedRow(msg string, line int, record []string) error
@@ -48,5 +48,5 @@ package main
 //@   props C19
 //@   requires txn == 0 && nonNilPtr(rm) && csvRead != nil && len(cfg.colTypes) >= len(cfg.srcCols)
 //@   requires[max; C19] forall i int :: 0 <= i && i < len(cfg.srcCols) ==> 0 <= cfg.srcCols[i] && cfg.srcCols[i] <= maxCsvIdx
-//@   modifies txn, storeState, walFlushes, entryCount, seq, rowsApplied, allelems(string), all(sql.InsertColumnsAndSource.QueryExpression)
+//@   modifies txn, storeState, ioFailed, walFlushes, entryCount, seq, rowsApplied, allelems(string), all(sql.InsertColumnsAndSource.QueryExpression)
 //@   loop 1 invariant txn == 0
